@@ -410,9 +410,17 @@ fn attempt(
                     )
                 })
                 .map(GenericDateTime::Timezone),
-            (Ok(time), Err(_)) => {
-                Ok(now.with_timezone(&tz).with_time(time).unwrap()).map(GenericDateTime::Timezone)
-            }
+            (Ok(time), Err(_)) => now
+                .with_timezone(&tz)
+                .with_time(time)
+                .earliest()
+                .ok_or_else(|| {
+                    (
+                        "Datetime does not represent a valid moment in time".to_string(),
+                        count,
+                    )
+                })
+                .map(GenericDateTime::Timezone),
             (Err(_), Ok(date)) => tz
                 .from_local_datetime(&date.and_hms_opt(0, 0, 0).unwrap())
                 .earliest()
